@@ -58,30 +58,46 @@ fn adpcm_site(s: &mut Seed, name: String, method_pos: usize, end: usize) {
     s.tokens.push(crate::seed::TokenSite { name, start, end, markers: vec![(0x81, 6), (0x80, 0x2C)], ordinary: vec![0x00, 0x7F, 0x3F] });
 }
 
+/// Register a raw-stored special file as a structured region; its size fields are the block entry's
+/// compressed_size and file_size (present in the inventory for the listed blocks).
+fn special_region(s: &mut Seed, name: &str, block: usize, start: usize, len: usize, arrays: Vec<(String, usize, usize)>) {
+    let want = [format!("block[{block}].compressed_size"), format!("block[{block}].file_size")];
+    let size_fields: Vec<usize> = s.fields.iter().enumerate().filter(|(_, f)| want.contains(&f.name)).map(|(i, _)| i).collect();
+    if size_fields.len() == 2 && start + len <= s.bytes.len() && len > 1 {
+        s.regions.push(crate::seed::Region { name: name.to_string(), start, len, size_fields, arrays });
+    }
+}
+
 pub fn seed_names(thorough: bool) -> Vec<String> {
     // quick also has the user-data archive (header scan, archive at a non-zero offset) and the codec archive
     // (ADPCM / sparse / lzma payloads: token-stream items)
+    // quick: also the archive with the full external (attributes) file (all four arrays incl. patch bits), the
+    // patch-bit-only one, and the crate's own PKWARE output (a seed whose baseline turns into a panic is a violation)
     let mut v = vec![
         "v1-zlib-mixed".to_string(),
         "v2-crc-attrs".to_string(),
         "v4-hetbet".to_string(),
         "v1-userdata".to_string(),
         "v1-codecs".to_string(),
+        "v1-nolistfile".to_string(),
+        "v1-attrs-f8".to_string(),
+        "v1-pkware-asbuilt".to_string(),
     ];
     if thorough {
-        for n in [
+        let combos: Vec<String> = (1u8..15).filter(|f| *f != 8).map(|f| format!("v1-attrs-f{f}")).collect();
+        let mut names: Vec<&str> = vec![
             "v3-hetbet",
             "v3-asbuilt",
             "v1-bzip2",
             "v4-cmptables",
-            "v1-pkware-asbuilt",
-            "v1-nolistfile",
             "v4-nolistfile",
             "v3-hdr208",
             "v3-cmptables",
             "v1-scan-offset",
             "v2-hiblock-signed",
-        ] {
+        ];
+        names.extend(combos.iter().map(|x| x.as_str()));
+        for n in names {
             v.push(n.to_string());
         }
     }
@@ -196,7 +212,9 @@ enum Attrs {
     Full,
     /// AttributesOption::External with a file written by the crate's `Attributes::to_bytes`: all four arrays
     /// (CRC32, FILETIME, MD5, PATCH_BIT), one entry per block INCLUDING (attributes) itself
-    ExternalAll,
+    /// AttributesOption::External with a file written by Attributes::to_bytes with these flag bits (1 CRC32,
+    /// 2 FILETIME, 4 MD5, 8 PATCH_BIT), one entry per block including (attributes) itself
+    External(u8),
 }
 
 #[derive(Clone, Copy, PartialEq)]
@@ -358,11 +376,25 @@ fn spec(name: &str) -> Spec {
             ],
             ..base
         },
+        // every combination of the (attributes) flag bits, written by Attributes::to_bytes
+        n if n.starts_with("v1-attrs-f") => {
+            let fl: u8 = n["v1-attrs-f".len()..].parse().unwrap_or_else(|_| wverif_common::tool_error(&format!("mpq: unknown seed {n}")));
+            Spec {
+                attrs: Attrs::External(fl),
+                all_blocks: true,
+                files: vec![
+                    f("big.bin", text(900, 71 + fl as u32), cf::ZLIB, Crypt::No),
+                    f("small.txt", text(200, 72), cf::ZLIB, Crypt::No),
+                    f("stored.dat", noise(90, 73), 0, Crypt::No),
+                ],
+                ..base
+            }
+        }
         // no (listfile): list() enumerates the hash table anonymously; the (attributes) file is an external
         // one with all four arrays and an entry for itself
         "v1-nolistfile" => Spec {
             listfile: false,
-            attrs: Attrs::ExternalAll,
+            attrs: Attrs::External(0xF),
             all_blocks: true,
             files: vec![
                 f("big.bin", text(1600, 61), cf::ZLIB, Crypt::No),
@@ -518,7 +550,7 @@ fn build_bytes(name: &str, sp: &Spec) -> Vec<u8> {
         Attrs::No => b.attributes_option(AttributesOption::None),
         Attrs::Crc => b.attributes_option(AttributesOption::GenerateCrc32),
         Attrs::Full => b.attributes_option(AttributesOption::GenerateFull),
-        Attrs::ExternalAll => {
+        Attrs::External(fl) => {
             // written by the crate's own serializer; one entry per block, the last one for (attributes) itself
             let n = block_names(sp).len();
             let file_attributes: Vec<FileAttributes> = (0..n)
@@ -532,7 +564,7 @@ fn build_bytes(name: &str, sp: &Spec) -> Vec<u8> {
                     }
                 })
                 .collect();
-            let at = Attributes { version: Attributes::EXPECTED_VERSION, flags: AttributeFlags::new(AttributeFlags::ALL), file_attributes, crc32: None, md5: None, filetime: None };
+            let at = Attributes { version: Attributes::EXPECTED_VERSION, flags: AttributeFlags::new(fl as u32), file_attributes, crc32: None, md5: None, filetime: None };
             let data = at.to_bytes().unwrap_or_else(|e| wverif_common::tool_error(&format!("mpq: Attributes::to_bytes: {e:?}")));
             std::fs::write(&ext, data).unwrap_or_else(|e| wverif_common::tool_error(&format!("mpq: write {ext:?}: {e}")));
             b.attributes_option(AttributesOption::External(ext.clone()))
@@ -855,26 +887,34 @@ pub fn build(name: &str) -> Seed {
         if special && real == "(attributes)" {
             s.field_ex(b.pos, 4, "index", "attr.version", b.pos + 8, 1, None);
             s.field_ex(b.pos + 4, 4, "index", "attr.flags", b.pos + 8, 4, None);
-            if matches!(sp.attrs, Attrs::Full | Attrs::ExternalAll) && b.flags & (FLAG_COMPRESS | FLAG_ENCRYPTED) == 0 {
+            if matches!(sp.attrs, Attrs::Full | Attrs::External(_)) && b.flags & (FLAG_COMPRESS | FLAG_ENCRYPTED) == 0 {
                 // the arrays behind the header, in file order; n entries each (the builder's own generator leaves
                 // the (attributes) block itself out, the external file has it)
-                let n = if sp.attrs == Attrs::ExternalAll { block_n } else { block_n - 1 };
+                let n = if matches!(sp.attrs, Attrs::External(_)) { block_n } else { block_n - 1 };
                 let fw = r32(&s.bytes, b.pos + 4);
                 let end = b.pos + b.csize;
                 let mut o = b.pos + 8;
+                let mut arrays: Vec<(String, usize, usize)> = vec![("header".to_string(), b.pos + 8, 4)];
                 for (bit, w, nm) in [(1u32, 4usize, "crc32"), (2, 8, "filetime"), (4, 16, "md5")] {
                     if fw & bit != 0 && o + w * n <= end {
                         for k in [0, n - 1] {
                             s.field_ex(o + w * k, w.min(8) as u8, "index", format!("attr.{nm}[{k}]"), o + w * n, 1, None);
                         }
                         o += w * n;
+                        arrays.push((nm.to_string(), o, w));
                     }
                 }
                 if fw & 8 != 0 && o < end {
                     s.field_ex(o, 1, "index", "attr.patch_bits[0]", end, 1, None);
+                    arrays.push(("patch_bits".to_string(), end, 1));
                 }
+                special_region(&mut s, "(attributes)", i, b.pos, b.csize, arrays);
             }
             continue;
+        }
+        if special && b.flags & (FLAG_COMPRESS | FLAG_ENCRYPTED) == 0 && b.csize > 1 {
+            // (listfile) / (signature) stored raw: the region as a whole one byte short / long
+            special_region(&mut s, real, i, b.pos, b.csize, Vec::new());
         }
         let key = if b.flags & FLAG_ENCRYPTED != 0 {
             let k = hash_string(real, hash_type::FILE_KEY);
